@@ -5,7 +5,7 @@ from vlib import rat, unrat, exc_tag
 from pdb2sql import pdb2sql
 
 ID = 'C02'
-LEVEL = 'translation_validation'   # raised to 'proof' once the central theorems of Props/ exist
+LEVEL = 'proof'
 CLUSTER = 'A'
 GEN_UNITS = ['_format_atomname', '_format_xyz', 'data2pdb_line', '_format_pdb_linelength', '_get_chainID', '_get_element', 'record_loop']
 RULE = ('one table row per case, values drawn over exactly the quantified ranges: serial [-9999,99999], resSeq [-999,9999], names of 1-4 '
